@@ -204,7 +204,7 @@ def c01_2(ctx):
                 def strong(model):
                     from vt import kit
                     return kit.run_strong_test('test_c01_cycle_join.py',
-                                               timeout=90)
+                                               timeout=45)
             yield Case('%s/%s' % (name, j), _c01_2_case(text, j, sym),
                        needed=['join-RUNNING', 'join-WAITING'],
                        replay=strong,
